@@ -114,6 +114,10 @@ def lean_type(t):
         return ' × '.join(_paren(lean_type(p)) for p in _prod_parts(t))
     if t.startswith('List '):
         return 'List ' + _paren(lean_type(t[5:]))
+    if t.startswith('Set '):
+        return 'List ' + _paren(lean_type(t[4:]))
+    if t.startswith('Opt ') and t not in LEAN_TYPE:
+        return 'Option ' + _paren(lean_type(t[4:]))
     if t.startswith('Tuple') and ' ' in t:
         n, et = int(t.split()[0][5:]), t.split(' ', 1)[1]
         return ' × '.join([_paren(lean_type(et))] * n)
@@ -322,6 +326,17 @@ class FnTr:
                 return self.block(rest)
             if self.is_super_init(s.value):
                 return self.block(rest)
+            c = s.value
+            if isinstance(c, ast.Call) and isinstance(c.func, ast.Attribute) and c.func.attr == 'add' and len(c.args) == 1 \
+                    and isinstance(c.func.value, ast.Name) and c.func.value.id in self.env \
+                    and self.env[c.func.value.id].typ.startswith('Set '):
+                # `seen.add(x)` on a local set (modelled as the list of its elements, newest first)
+                n = c.func.value.id
+                v = self.expr(c.args[0])
+                old = self.env[n]
+                nm = self.gensym(lname(n))
+                self.env[n] = Val(nm, 'Set ' + v.typ, path=n)
+                return f'let {nm} := ({v.text} :: {old.text})\n' + self.block(rest)
             hook = self.u.hooks.get('expr_stmt')
             if hook and hook(self, s.value):
                 return self.block(rest)
@@ -508,6 +523,11 @@ class FnTr:
             pairs = list(zip(tgt.elts, vals))
         else:
             v = self.expr(value, allow_raise=True)
+            if '?' in v.typ and isinstance(tgt, ast.Name):
+                hint = self.u.hooks.get('local_type', lambda q, n: None)(self.inst.qual, tgt.id)
+                if not hint:
+                    raise Unsupported(f'`{self.inst.qual}`: element type of `{tgt.id}` is not declared')
+                v = Val(f'({v.text} : {lean_type(hint)})', hint)
             pairs = [(tgt, v)]
         lets = []
         for t, v in pairs:
@@ -581,6 +601,9 @@ class FnTr:
                     for m in ast.walk(t):
                         if isinstance(m, ast.Name):
                             assigned.add(m.id)
+            if isinstance(n, ast.Expr) and isinstance(n.value, ast.Call) and isinstance(n.value.func, ast.Attribute) \
+                    and n.value.func.attr in ('add', 'append') and isinstance(n.value.func.value, ast.Name):
+                assigned.add(n.value.func.value.id)
             if isinstance(n, (ast.For, ast.While, ast.Break, ast.Continue, ast.Try, ast.With)):
                 raise Unsupported(f'`{self.inst.qual}`: `{type(n).__name__}` inside a loop body')
         targets = [s.target.id] if isinstance(s.target, ast.Name) else \
@@ -716,6 +739,30 @@ class FnTr:
                 return self.expr(e.body)
             if st is False:
                 return self.expr(e.orelse)
+            if self.has_optional_test(e.test):
+                # `f(x) if x else None`: a match that binds the narrowed value; both arms brought to one type
+                types = []
+
+                def arm(node):
+                    def k(tr):
+                        v = tr.expr(node)
+                        types.append(v.typ)
+                        return '\x00' + str(len(types) - 1) + '\x01' + v.text + '\x02'
+                    return k
+                txt = self.branch(e.test, arm(e.body), arm(e.orelse))
+                real = [t for t in types if t != 'None']
+                if not real or any(t != real[0] for t in real):
+                    raise Unsupported(f'conditional expression of types {types}')
+                typ = ('Opt ' + real[0]) if 'None' in types and not real[0].startswith('Opt ') else real[0]
+                import re as _re
+
+                def fix(m):
+                    t, body = types[int(m.group(1))], m.group(2)
+                    if t == 'None':
+                        return 'none'
+                    return f'some {_paren(body)}' if typ != t else body
+                txt = _re.sub('\x00(\\d+)\x01(.*?)\x02', fix, txt, flags=_re.S)
+                return Val(f'({txt})', typ)
             a, b = self.expr(e.body), self.expr(e.orelse)
             if a.typ != b.typ:
                 raise Unsupported(f'conditional expression of types {a.typ} / {b.typ}')
@@ -799,6 +846,9 @@ class FnTr:
 
     def compare2(self, a, op, b):
         num = ('Dt', 'Td', 'Int')
+        if isinstance(op, (ast.In, ast.NotIn)) and b.typ.startswith('Set '):
+            r = Val(f'(({b.text}).contains {a.text})', 'Bool')
+            return r if isinstance(op, ast.In) else Val(f'(!{r.text})', 'Bool')
         if isinstance(op, (ast.In, ast.NotIn)) and (b.typ, '__contains__', (a.typ,)) in self.u.abstract:
             tmpl, typ = self.u.abstract[(b.typ, '__contains__', (a.typ,))]
             r = Val('(' + tmpl.format(_paren(b.text), _paren(a.text)) + ')', typ)
@@ -878,6 +928,8 @@ class FnTr:
                 return self.expr(e.args[1])
             if f.id == 'hash' and len(e.args) == 1:
                 return self.expr(e.args[0])           # the value handed to hash()
+            if f.id == 'set' and not e.args:
+                return Val('[]', 'Set ?')
             if f.id in ('any', 'all') and len(e.args) == 1 and isinstance(e.args[0], ast.GeneratorExp):
                 return self.any_all(f.id, e.args[0])
             if f.id == 'isinstance':
